@@ -25,6 +25,8 @@ Definition job_dirs (f : fs) (wsd : path) : list str :=
   | FErr _ => []
   end.
 
+Definition is_jnull (v : json) : bool := match v with JNull => true | _ => false end.
+
 Definition json_same (a b : json) : bool := json_eqb (norm a) (norm b).
 
 (* entries below <project>/workspace *)
@@ -80,7 +82,10 @@ Section PROGS.
       | FOk (RData d) =>
           match c_json d with
           | None => k (inr (PExn EJobsCorrupted))
-          | Some v => if str_eqb (calc_id frepr v) i then k (inl v) else k (inr (PExn EJobsCorrupted))
+          | Some v =>
+              (* "data is None or calc_id(data) != job_id": a file holding JSON null never validates *)
+              if is_jnull v then k (inr (PExn EJobsCorrupted))
+              else if str_eqb (calc_id frepr v) i then k (inl v) else k (inr (PExn EJobsCorrupted))
           end
       | FOk _ => k (inr (PExn EOther))
       end).
@@ -289,17 +294,41 @@ Section PROGS.
       | FErr e => k (FErr e)
       end).
 
-  (* Project.clone(job) *)
+  (* shutil.rmtree(p, ignore_errors=True): every error is ignored and the walk goes on *)
+  Fixpoint rmtree_ign {A} (fuel : nat) (p : path) (k : prog A) : prog A :=
+    Do (CStat p) (fun rs =>
+      if is_dir_r rs then
+        Do (CListdir p) (fun rl =>
+          match rl with
+          | FOk (RNames names) =>
+              (fix entries (ns : list str) {struct ns} : prog A :=
+                 match ns with
+                 | [] => Do (CRmdir p) (fun _ => k)
+                 | n :: ns' =>
+                     Do (CStat (p ++ [n])) (fun rk =>
+                       if is_dir_r rk then
+                         match fuel with
+                         | O => entries ns'
+                         | S fuel' => rmtree_ign fuel' (p ++ [n]) (entries ns')
+                         end
+                       else Do (CUnlink (p ++ [n])) (fun _ => entries ns'))
+                 end) names
+          | _ => k
+          end)
+      else k).
+
+  (* Project.clone(job): a failed copy (other than "destination exists" / "source missing") removes the
+     partial destination before the error is re-raised *)
   Definition job_clone {A} (ws : path) (i : str) (dst_ws : path) (k : unit + perr -> prog A) : prog A :=
     with_sp ws i (fun sp =>
       let did := calc_id frepr sp in
       copytree_p 6 (ws ++ [i]) (dst_ws ++ [did]) (fun r =>
         match r with
         | FOk false => k (inl tt)
-        | FOk true => k (inr (POs EIO))                 (* shutil.Error: an OSError without errno *)
+        | FOk true => rmtree_ign 6 (dst_ws ++ [did]) (k (inr (POs EIO)))     (* shutil.Error: an OSError without errno *)
         | FErr EEXIST => k (inr (PExn EDestinationExists))
         | FErr ENOENT => k (inr (PExn EValueError))
-        | FErr e => k (inr (POs e))
+        | FErr e => rmtree_ign 6 (dst_ws ++ [did]) (k (inr (POs e)))
         end)) (fun e => k (inr e)).
 
   (* shutil.rmtree(p): the first error is raised *)
@@ -684,7 +713,8 @@ Definition WInv (frepr : fl -> str) (wss : list path) (f0 : fs) : Prop :=
   (forall p, get f0 p <> None -> get f0 (parent p) = Some Dir) /\
   (forall a b, In a wss -> In b wss -> length a = length b) /\
   (forall ws, In ws wss -> get f0 ws = Some Dir /\
-                           forall i, In i (job_dirs f0 ws) -> validates frepr f0 ws i = true).
+                           forall i, In i (job_dirs f0 ws) ->
+                             validates frepr f0 ws i = true /\ sp_value f0 ws i <> Some JNull).
 
 (* the workspaces an operation works in *)
 Definition op_wss (o : cop) : list path :=
